@@ -38,6 +38,34 @@ def gradof(t):
     return None if gt is None else gt.data
 
 
+_CHILDREN_ATTR = []
+
+
+def children_of(t):
+    """the operands an operation recorded on its result.  The pinned tree keeps them in ``_children``; if that private name is
+    gone, the attribute is found once by behaviour: on y = x * 2 it is the one holding a tuple/list that contains x."""
+    c = getattr(t, "_children", _MISSING)
+    if c is not _MISSING:
+        return c
+    if not _CHILDREN_ATTR:
+        Tn = T()
+        x = Tn(np.ones((1,), dtype=np.float32), requires_grad=True)
+        y = x * 2.0
+        names = list(getattr(y, "__dict__", {})) + [n for k in type(y).__mro__ for n in getattr(k, "__slots__", ())]
+        found = []
+        for n in names:
+            try:
+                v = getattr(y, n)
+            except Exception:  # noqa: BLE001
+                continue
+            if isinstance(v, (tuple, list)) and any(e is x for e in v):
+                found.append(n)
+        if len(found) != 1:
+            raise sc.Unsupported("graph introspection: cannot tell where this tree records the operands of an operation")
+        _CHILDREN_ATTR.append(found[0])
+    return getattr(t, _CHILDREN_ATTR[0])
+
+
 def set_grad(t, arr):
     """put a gradient array on a tensor (harness pre-states: stale buffers, arbitrary accumulated values)"""
     if hasattr(t, "_grad"):
